@@ -411,7 +411,10 @@ def numeric_vs_pywt(rep, pid, tier):
                     kform += 1
                     wave, form = dwtlib.wave_form(name, kform)
                     mode_arg = "per" if (mode == "periodization" and kform % 2) else mode
-                    yl, yh = pw.DWT1DForward(J=J, wave=wave, mode=mode_arg)(torch.tensor(x))
+                    fw1 = pw.DWT1DForward(J=J, wave=wave, mode=mode_arg)
+                    if kform % 2 == 0:
+                        dwtlib.give_past(fw1, torch.tensor(x))          # the module has a past (calls in other precisions)
+                    yl, yh = fw1(torch.tensor(x))
                 except Exception as e:   # noqa
                     lens = [N]
                     for _ in range(J):
@@ -442,7 +445,10 @@ def numeric_vs_pywt(rep, pid, tier):
                     kform += 1
                     wave, form = dwtlib.wave_form(name, kform)
                     mode_arg = "per" if (mode == "periodization" and kform % 2) else mode
-                    yl, yh = pw.DWTForward(J=J2, wave=wave, mode=mode_arg)(torch.tensor(x))
+                    fw2 = pw.DWTForward(J=J2, wave=wave, mode=mode_arg)
+                    if kform % 2 == 0:
+                        dwtlib.give_past(fw2, torch.tensor(x))
+                    yl, yh = fw2(torch.tensor(x))
                 except Exception as e:   # noqa
                     if mode == "reflect":
                         continue
@@ -787,8 +793,10 @@ def numeric_inverse_vs_pywt(rep, pid, tier):
             mode_arg = "per" if (mode == "periodization" and kform % 2) else mode
             try:
                 yh1 = [torch.tensor(c) for c in coeffs[1:][::-1]]
-                y = pw.DWT1DInverse(wave=wave, mode=mode_arg)(
-                    (torch.tensor(coeffs[0]), tuple(yh1) if kform % 3 == 0 else yh1)).numpy()      # yh as a list or a tuple
+                iv1 = pw.DWT1DInverse(wave=wave, mode=mode_arg)
+                if kform % 2 == 0:
+                    dwtlib.give_past(iv1, (torch.tensor(coeffs[0]), yh1))       # the module has a past (calls in other precisions)
+                y = iv1((torch.tensor(coeffs[0]), tuple(yh1) if kform % 3 == 0 else yh1)).numpy()      # yh as a list or a tuple
             except Exception as e:   # noqa
                 rep.violation("DWT1DInverse(%s given as %s, %s) raised %r on a random pyramid of shapes %s" % (name, form, mode_arg, e, shapes),
                               {"api": "DWT1DInverse", "check": "numeric", "cfg": dict(wavelet=name, mode=mode, N=N, J=J)})
@@ -812,7 +820,10 @@ def numeric_inverse_vs_pywt(rep, pid, tier):
             try:
                 yh = [torch.tensor(np.stack(lev, axis=2)) for lev in c2[1:][::-1]]
                 wave2, form2 = dwtlib.wave_form(name, kform + 1, synthesis=True)
-                y = pw.DWTInverse(wave=wave2, mode=mode_arg)((torch.tensor(c2[0]), tuple(yh) if kform % 3 == 1 else yh)).numpy()
+                iv2 = pw.DWTInverse(wave=wave2, mode=mode_arg)
+                if kform % 2 == 1:
+                    dwtlib.give_past(iv2, (torch.tensor(c2[0]), yh))
+                y = iv2((torch.tensor(c2[0]), tuple(yh) if kform % 3 == 1 else yh)).numpy()
             except Exception as e:   # noqa
                 rep.violation("DWTInverse(%s given as %s, %s) raised %r on a random %dx%d pyramid" % (name, form2, mode_arg, e, H, W),
                               {"api": "DWTInverse", "check": "numeric", "cfg": dict(wavelet=name, mode=mode, H=H, W=W, J=J2)})
